@@ -147,7 +147,7 @@ func verifNewDBStack(rnd *verifutil.Rand, ents []verifc02.Ent, opts verifc02.Bui
 		return nil, err
 	}
 	s.tree = verifc02.NewTree(rootNode)
-	s.meta = &verifc02.Meta{T: s.tree, View: s.view, Ctx: opts.String(), RootSig: verifc02.SigDBRootAttr}
+	s.meta = &verifc02.Meta{T: s.tree, View: s.view, Ctx: opts.String(), SkipRootAttr: true}
 	// independent db reader for ChunkEntryForOffset
 	var d metadata.Decompressor = &estargz.GzipDecompressor{}
 	if opts.Zstd {
@@ -347,23 +347,34 @@ func TestVerifC02DB(t *testing.T) {
 	defer out.Close()
 	nhist := verifutil.EnvInt("VERIF_N", 20)
 	nops := verifutil.EnvInt("VERIF_OPS", 30)
-	verifDBWitnesses(out, rnd)
-	for h := 0; h < nhist; h++ {
-		ents := verifc02.GenTar(rnd, verifc02.GenParams{MaxEntries: 12, ChunkHint: []int64{7, 33, 64, 500}[rnd.Intn(4)], MaxFile: 3000, NoLateDirs: true})
-		opts := verifc02.GenBuildOpts(rnd, ents)
-		if rnd.Intn(6) == 0 {
-			opts.Plain, opts.Prioritized = true, nil
+	reg := func(name string, size int64, salt int64) verifc02.Ent {
+		return verifc02.Ent{Name: name, Type: tar.TypeReg, Mode: 0o644, Size: size, Salt: salt, MTime: 1700000000}
+	}
+	// regression scenarios first (layouts of the defects repaired by 46fe897 and 8686934)
+	fixed := []struct {
+		ents []verifc02.Ent
+		opts verifc02.BuildOpts
+	}{
+		{[]verifc02.Ent{reg("a", 10, 1), reg("b", 12, 3)}, verifc02.BuildOpts{ChunkSize: 4, MinChunkSize: 100000}},
+		{[]verifc02.Ent{reg("a", 10, 1), reg("e", 0, 2), reg("b", 12, 3)}, verifc02.BuildOpts{ChunkSize: 4, MinChunkSize: 100000, Prioritized: []string{"a", "e", "b"}}},
+		{[]verifc02.Ent{reg("d/p", 300, 4), reg("q", 700, 5), reg("d/r", 40, 6)}, verifc02.BuildOpts{ChunkSize: 64, MinChunkSize: 2000, Zstd: true}},
+	}
+	for h := 0; h < nhist+len(fixed); h++ {
+		var ents []verifc02.Ent
+		var opts verifc02.BuildOpts
+		if h < len(fixed) {
+			ents, opts = fixed[h].ents, fixed[h].opts
+		} else {
+			ents = verifc02.GenTar(rnd, verifc02.GenParams{MaxEntries: 12, ChunkHint: []int64{7, 33, 64, 500}[rnd.Intn(4)], MaxFile: 3000, NoLateDirs: true})
+			opts = verifc02.GenBuildOpts(rnd, ents)
+			if rnd.Intn(6) == 0 {
+				opts.Plain, opts.Prioritized = true, nil
+			}
 		}
 		verify := rnd.Intn(5) != 0
 		s, err := verifNewDBStack(rnd, ents, opts, verify, 2, 0)
 		if err != nil {
 			out.Fail("db-stack-setup-failed", fmt.Sprintf("history %d: %v [%s]", h, err, opts))
-			continue
-		}
-		if verifc02.TaintedDB(s.files) {
-			// layout of the labelled candidate finding; exercised by its own witness only
-			out.Count("skipped-tainted-layout-db")
-			s.close()
 			continue
 		}
 		out.Comment(fmt.Sprintf("db history %d: %d tar entries, %s, %s", h, len(s.ents), s.opts, s.cfgStr))
@@ -456,30 +467,15 @@ func TestVerifC02DB(t *testing.T) {
 	}
 }
 
-// verifDBWitnesses replays the minimal archives of the db store's candidate findings, each under its
-// own signature.
-func verifDBWitnesses(out *verifutil.Out, rnd *verifutil.Rand) {
+// TestVerifC02DBKnown — the witnesses of the two KNOWN findings of the db store
+// (findings/known_findings.txt), in a pass of their own so that the main pass keeps a strict oracle
+// and a strict correspondence.  Nothing here is sent to the model.
+func TestVerifC02DBKnown(t *testing.T) {
+	rnd := verifutil.NewRand(verifc02.MixSeed(verifutil.Seed(), 4))
+	out := verifutil.OpenOut()
+	defer out.Close()
 	reg := func(name string, size int64, salt int64) verifc02.Ent {
 		return verifc02.Ent{Name: name, Type: tar.TypeReg, Mode: 0o644, Size: size, Salt: salt, MTime: 1700000000}
-	}
-	// (1) two chunks of one file in one gzip member
-	{
-		ents := []verifc02.Ent{reg("a", 10, 1), reg("b", 12, 3)}
-		opts := verifc02.BuildOpts{ChunkSize: 4, MinChunkSize: 100000}
-		s, err := verifNewDBStack(rnd, ents, opts, true, 2, 0)
-		if err != nil {
-			out.Fail("witness-setup-failed", err.Error())
-		} else {
-			out.Comment("witness " + verifc02.SigDBTwoChunksInMember)
-			got, errno := s.tree.Read("a", 0, 4)
-			if errno != 0 || !bytes.Equal(got, s.view["a"].Content[:4]) {
-				out.Fail(verifc02.SigDBTwoChunksInMember, fmt.Sprintf("db store, tar [a(10 bytes) b(12 bytes)] built with chunk-size 4, min-chunk-size 100000 "+
-					"(one gzip member holds the 3 chunks of a and the 3 chunks of b): reading \"a\"[0:4] with a healthy registry gives errno=%v bytes=%q", errno, got))
-			} else {
-				out.Count("witness-db-two-chunks-ok")
-			}
-			s.close()
-		}
 	}
 	// (3) a directory entry after an entry below it
 	{
@@ -509,6 +505,7 @@ func verifDBWitnesses(out *verifutil.Out, rnd *verifutil.Rand) {
 		} else {
 			out.Comment("witness " + verifc02.SigDBRootAttr)
 			s.meta.Out = out
+			s.meta.SkipRootAttr, s.meta.RootSig = false, verifc02.SigDBRootAttr
 			s.meta.Stat("", false)
 			s.meta.Xattr("", "user.k", false)
 			s.close()
